@@ -219,7 +219,22 @@ def merge(results):
         if len(out['samples']) < 4:
             out['samples'] += r['samples'][:2]
         for k, v in r.get('notes', {}).items():
-            out['notes'].setdefault(k, v)
+            if k == 'pool_schedules' and k in out['notes']:
+                a = out['notes'][k]
+                a['pool_runs'] += v['pool_runs']
+                a['runs_with_more_than_one_worker'] += v['runs_with_more_than_one_worker']
+                a['distinct_task_to_worker_assignments'] += v['distinct_task_to_worker_assignments']
+                a['distinct_worker_set_sizes'] = sorted(set(a['distinct_worker_set_sizes']) | set(v['distinct_worker_set_sizes']))
+            elif k in ('worst_error_over_tolerance', 'max_conditioning_factor_applied', 'repeated_call_pairs_compared',
+                       'distinct_logged_calls') and k in out['notes']:
+                out['notes'][k] = max(out['notes'][k], v) if k.startswith(('worst', 'max')) else out['notes'][k] + v
+            elif k == 'hooks' and k in out['notes']:
+                for hn, hv in v.items():
+                    o = out['notes'][k].setdefault(hn, dict(hv, calls=0, evaluated=0, ignored_out_of_domain=0))
+                    for f in ('calls', 'evaluated', 'ignored_out_of_domain'):
+                        o[f] += hv[f]
+            else:
+                out['notes'].setdefault(k, v)
     return out
 
 
